@@ -15,3 +15,12 @@ func (ctrler *RigoApp) VerifStakeCtrler() *stake.StakeCtrler { return ctrler.sta
 func (ctrler *RigoApp) VerifGovCtrler() *gov.GovCtrler       { return ctrler.govCtrler }
 func (ctrler *RigoApp) VerifAcctCtrler() *account.AcctCtrler { return ctrler.acctCtrler }
 func (ctrler *RigoApp) VerifEVMCtrler() *evm.EVMCtrler       { return ctrler.vmCtrler }
+
+// VerifStopAll is Stop followed by closing the stores Stop leaves open.
+func (ctrler *RigoApp) VerifStopAll() error {
+	err := ctrler.Stop()
+	ctrler.stakeCtrler.VerifCloseRest()
+	ctrler.govCtrler.VerifCloseRest()
+	ctrler.vmCtrler.VerifCloseRest()
+	return err
+}
